@@ -59,9 +59,11 @@ ERR_SOURCES = [
     "={'a': 1/0}", "=[{'a': 1/0}]", "={'a': [{'b': 1/0}]}", "={'a': {'b': {'c': [1, {'d': inputs.nope}]}}}",
     "=overlay({}, {'x': 1/0})", "=overlay({'k': {'z': 1}}, {'k': {'y': inputs.nope}})",
     "=[1, 2].map(x, {'v': x / 0})", "=[1, 2].all(x, x/0 == 1)", "=[1, 2].exists(x, x/0 == 1)",
+    # errors whose tree celpy's tree_dump cannot print (it raises IndexError on them)
+    "=inputs.nope == []", "=inputs.nope == {}", "=inputs.nope ? 1 : {}", "={'a': {}}.b", "=size(inputs.nope + [])",
 ]
 RAISE_SOURCES = ["=[1].map(x, x/0)", "=[1, 2].filter(x, x/0 == 1)", "=[1, 2].map(x, to_ref({}))", "={1/0: 1}",
-                 "={'a': 1, 'a': 2}",
+                 "={'a': 1, 'a': 2}", "=[1].map(x, inputs.nope == [])", "={'a': {}, 'a': 1}",
                  # these make celpy raise something that is NOT a CELEvalError (ValueError, IndexError,
                  # RecursionError)
                  "=[1, 2, 3].map(x, x > 1, x * 2)", "=dyn()", "=" + "[" * 60 + "1" + "]" * 60]
@@ -267,7 +269,7 @@ def check_eval(ctx: Ctx, case):
     raws = [x for rn, x in log if rn is prog]
     why = None
     if obs[0] == "raised":
-        why = ("evaluate: exception escapes", f"evaluate raised {obs[1]}")
+        why = (H.escape_signature("evaluate", obs[1], raws), f"evaluate raised {obs[1]}")
     elif leak:
         why = ("evaluate: error object in the returned value", "the value returned by evaluate holds a CELEvalError")
     elif prog is None:
@@ -315,7 +317,7 @@ def check_overlay(ctx: Ctx, case):
     raws = [x for rn, x in log if rn is ov.values]
     why = None
     if obs[0] == "raised":
-        why = ("evaluate_overlay: exception escapes", f"evaluate_overlay raised {obs[1]}")
+        why = (H.escape_signature("evaluate_overlay", obs[1], raws), f"evaluate_overlay raised {obs[1]}")
     elif leak:
         why = ("evaluate_overlay: error object in the returned value",
                "the value returned by evaluate_overlay holds a CELEvalError")
@@ -344,7 +346,8 @@ PRED_SOURCES = [
     "[{'assert': false, 1: 2}]", "1/0", "[1/0]", "inputs.nope", "[{'a': [1, {'b': inputs.nope}]}]",
     "[1, 2].map(x, x/0)", "{'a': 1/0}", "[{'assert': 1, 'permFail': {'message': 'p'}}]",
     "[{'permFail': {'message': 'p'}, 'assert': true}]", "[to_ref({})]", "[1, 2, 3].map(x, x > 1, x * 2)", "dyn()",
-    "[{'assert': false, 'skip': {'message': dyn()}}]", "[{'assert': false, 'skip': {'message': to_ref({})}}]",
+    "[{'assert': false, 'skip': {'message': dyn()}}]", "[1].map(x, inputs.nope == [])", "[inputs.nope == []]",
+    "[{'assert': false, 'skip': {'message': inputs.nope == []}}]", "[{'assert': false, 'skip': {'message': to_ref({})}}]",
 ]
 
 
@@ -365,7 +368,7 @@ def check_predraw(ctx: Ctx, case):
     raws = [x for rn, x in log if rn is prog]
     why = None
     if obs[0] == "raised":
-        why = ("evaluate_predicates: exception escapes", f"evaluate_predicates raised {obs[1]}")
+        why = (H.escape_signature("evaluate_predicates", obs[1], raws), f"evaluate_predicates raised {obs[1]}")
     elif obs[0] == "val" or (obs[0] == "out" and obs[1] == 2):
         why = ("evaluate_predicates: result is not an outcome", repr(obs))
     elif raws and raw_failed(raws[0]) and not names_location(obs, LOC):
@@ -396,7 +399,7 @@ def pred_view_fails(case) -> bool:
 def oracle_vf(case, out):
     obs, trace = out["obs"], out["trace"]
     if obs[0] == "raised":
-        return ("vf: exception escapes", f"reconcile_value_function raised {obs[1]}")
+        return (H.escape_signature("vf", obs[1], out["raws"].values()), f"reconcile_value_function raised {obs[1]}")
     if out["leak"]:
         return ("vf: error object in the returned value", "the result of reconcile_value_function holds a CELEvalError")
     if obs[0] == "none" or (obs[0] == "out" and obs[1] == 2):
@@ -420,7 +423,7 @@ def oracle_vf(case, out):
 
 
 def term_vf(case, out) -> str:
-    placeholder = ["raise"]
+    placeholder = ["raise", True]
 
     def site(name):
         if not out["has"][name]:
